@@ -4,12 +4,13 @@
 // Serialize() method issuing KeyValue requests in declaration order, byte containers, strings) — and
 // prints the loaded tree.
 //   ld <m|s> <pol> <shape> <hexdoc>     m = from std::string, s = from std::istream; pol = mismatch,overflow in T|S
-//   shape := n | T | F | i<kind>:+0 | f0 | d0 | s- | b- | [shape] | {s<hexname>=shape;...} | <kshape=shape> | (N|shape) | v
+//   shape := n | T | F | i<kind>:+0 | f0 | d0 | s- | b- | [shape] | {s<hexname>=shape;...} | <kshape=shape> | (N|shape) | v | ^shape;..$
 //            (the tree syntax of drv_mpsave.cpp; scalars give the kind, a vector holds exactly one element: the
 //             shape of its elements; <k=v> is std::map<K, v> with K = std::string (k = s-) or an integer type
 //             (k = i<kind>:+0), loaded by the library's own SerializeMapImpl (MapLoadMode::Clean); the target is
 //             value-initialised from the shape); (N|e) is std::array<e, N> (the library's SerializeFixedSizeArray),
-//             v is std::vector<bool> (the library's own overload).  A loaded map prints as {key=value;...} in the
+//             v is std::vector<bool> (the library's own overload), ^s1;..;sn$ is std::tuple<s1,..,sn> with n <= 4 (the library's
+//             SerializeArray(std::tuple) on a tuple of references to the component nodes).  A loaded map prints as {key=value;...} in the
 //             map's order, a fixed-size array and a vector<bool> as [..;..]
 //   answer: OK <tree> | ERR <cat>
 #include "common.h"
@@ -17,11 +18,13 @@
 #include <cstring>
 #include <map>
 #include <memory>
+#include <tuple>
 #include <sstream>
 #include <vector>
 #include "bitserializer/bit_serializer.h"
 #include "bitserializer/msgpack_archive.h"
 #include "bitserializer/types/std/vector.h"
+#include "bitserializer/types/std/tuple.h"
 #include "bitserializer/serialization_detail/generic_map.h"
 
 namespace dyn {
@@ -72,6 +75,7 @@ struct Node {
 	MapHandle map;
 	Fix fix;
 	std::vector<bool> vb;
+	std::vector<Node> comps;         // tuple components
 };
 
 std::string print_node(const Node& n);
@@ -142,6 +146,14 @@ bool with_target(Node& v, F&& f) {
 	case '[': return f(v.arr);
 	case '(': return f(v.fix);
 	case 'v': return f(v.vb);
+	case '^':
+		switch (v.comps.size()) {
+		case 0: { std::tuple<> t; return f(t); }
+		case 1: { auto t = std::tie(v.comps[0]); return f(t); }
+		case 2: { auto t = std::tie(v.comps[0], v.comps[1]); return f(t); }
+		case 3: { auto t = std::tie(v.comps[0], v.comps[1], v.comps[2]); return f(t); }
+		default: { auto t = std::tie(v.comps[0], v.comps[1], v.comps[2], v.comps[3]); return f(t); }
+		}
 	case '<':
 		switch (v.map.kk) {
 		case 0: return f(static_cast<MapOf<uint8_t>&>(*v.map.p));
@@ -174,7 +186,7 @@ using dyn::Node;
 
 static Node parse(const std::string& t, size_t& p) {
 	Node n; char c = t.at(p++);
-	auto token = [&]() { size_t q = p; while (q < t.size() && t[q] != ';' && t[q] != ']' && t[q] != '}' && t[q] != '=' && t[q] != '>' && t[q] != '|' && t[q] != ')') ++q; std::string r = t.substr(p, q - p); p = q; return r; };
+	auto token = [&]() { size_t q = p; while (q < t.size() && t[q] != ';' && t[q] != ']' && t[q] != '}' && t[q] != '=' && t[q] != '>' && t[q] != '|' && t[q] != ')' && t[q] != '$') ++q; std::string r = t.substr(p, q - p); p = q; return r; };
 	switch (c) {
 	case 'n': n.kind = 'n'; break;
 	case 'T': case 'F': n.kind = 'B'; break;
@@ -200,6 +212,15 @@ static Node parse(const std::string& t, size_t& p) {
 		break;
 	}
 	case 'v': n.kind = 'v'; break;
+	case '^':
+		n.kind = '^';
+		if (t.at(p) == '$') { ++p; break; }
+		for (;;) {
+			n.comps.push_back(parse(t, p));
+			if (t.at(p) == ';') { ++p; continue; } if (t.at(p) == '$') { ++p; break; } throw std::runtime_error("bad tuple shape");
+		}
+		if (n.comps.size() > 4) throw std::runtime_error("tuples of up to 4 components");
+		break;
 	case '(': {
 		n.kind = '(';
 		const size_t count = std::stoul(token());
@@ -281,6 +302,11 @@ static std::string print(const Node& n) {
 	case '(': {
 		std::string r = "[";
 		for (size_t i = 0; i < n.fix.items.size(); ++i) { if (i) r += ";"; r += print(n.fix.items[i]); }
+		return r + "]";
+	}
+	case '^': {
+		std::string r = "[";
+		for (size_t i = 0; i < n.comps.size(); ++i) { if (i) r += ";"; r += print(n.comps[i]); }
 		return r + "]";
 	}
 	case 'v': {
